@@ -29,7 +29,7 @@ type c11Extra struct {
 }
 
 // c11Build builds the schema tree; extras are added (writer) or not (reader).
-func c11Build(nest string, holder bool, extras []c11Extra) *ref.Struct {
+func c11Build(nest string, holder bool, extras []c11Extra, fixedN bool) *ref.Struct {
 	sc := universe.Sc
 	D, O := ref.ReqDefault, ref.ReqOptional
 	add := func(s *ref.Struct, level int) *ref.Struct {
@@ -43,7 +43,12 @@ func c11Build(nest string, holder bool, extras []c11Extra) *ref.Struct {
 		return s
 	}
 	n2 := add(mk(fd(2, D, sc(ref.KBool)), fd(5, D, sc(ref.KString))), 2)
-	n := add(mk(fd(2, D, sc(ref.KI64)), fd(5, D, universe.ListOf(sc(ref.KI16))), fd(8, O, universe.StPtr(n2))), 1)
+	n := mk(fd(2, D, sc(ref.KI64)), fd(5, D, universe.ListOf(sc(ref.KI16))), fd(8, O, universe.StPtr(n2)))
+	if fixedN {
+		// fixed-size, always-written fields only: the shape size shortcuts apply to
+		n = mk(fd(2, D, sc(ref.KI64)), fd(5, D, sc(ref.KBool)))
+	}
+	n = add(n, 1)
 	var nt *ref.Type
 	switch nest {
 	case "field*":
@@ -116,12 +121,13 @@ func c11Body(c *explore.C, tier universe.Tier) {
 		extras = append(extras, e2)
 	}
 	ord := c.Choose(3, explore.Data, "wire-order")
+	fixedN := c.Bool(explore.Data, "nested-struct-fixed-size-only")
 	harness.Cur.Crumb(c.Choices())
 	hooks.Reset()
 
-	W := c11Build(nest, false, extras)
-	T := c11Build(nest, true, nil)
-	Tn := c11Build(nest, false, nil)
+	W := c11Build(nest, false, extras, fixedN)
+	T := c11Build(nest, true, nil, fixedN)
+	Tn := c11Build(nest, false, nil, fixedN)
 	wv := c11Value(W, 3)
 	msg := ref.EncodeWith(W, wv, func(st *ref.Struct) []int {
 		n := len(st.Fields)
@@ -138,7 +144,7 @@ func c11Body(c *explore.C, tier universe.Tier) {
 		}
 		return o
 	})
-	how := fmt.Sprintf("nest=%s extras=%v order=%d", nest, describeExtras(extras), ord)
+	how := fmt.Sprintf("nest=%s extras=%v order=%d fixed-size-nested=%v", nest, describeExtras(extras), ord, fixedN)
 	// 1. decode with the holder
 	dv := decodeAndCompare(T, msg, decodeOpts{Guard: true})
 	if dv.Class != "" {
